@@ -43,6 +43,7 @@ class ThreadRun:
         self.events = 0
         self.reps_done = 0
         self.contended = 0
+        self.passed: dict[int, bool] = {}
         self.req_while_busy = 0
         self.stop = False
         self.barrier = threading.Barrier(self.n, action=self._sample)
@@ -69,13 +70,22 @@ class ThreadRun:
                 self.contended += 1
             ins[tid] = kind
             self.state[tid] = 'inside'
+            if kind == 'R':
+                # readers that asked earlier and are still parked (naming)
+                self.passed[tid] = any(
+                    self.state[t] == 'waiting' and self.kind[t] == 'R' and
+                    self.rep_of[t] == rep
+                    for t in range(self.n) if t != tid)
             self.log.append((rep, 'enter', tid, kind))
             if kind == 'W' and writers:
                 self._violate('writer-overlaps-writer',
                               'writer %d entered while writer %d is inside'
                               % (tid, writers[0]), rep)
             elif kind == 'W' and readers:
-                self._violate('writer-enters-while-reader-active',
+                by = any(self.passed.get(r) for r in readers)
+                self._violate('writer-enters-onto-reader-that-passed-'
+                              'queued-reader' if by else
+                              'writer-enters-while-reader-active',
                               'writer %d entered while readers %r inside'
                               % (tid, readers), rep)
             elif kind == 'R' and writers:
@@ -218,3 +228,60 @@ class ThreadRun:
                     time.sleep(0.05)
             except Exception:
                 break
+
+
+def script_reader_passes_queued_reader() -> tuple[dict[str, Any] | None,
+                                                  str | None, int]:
+    """Scripted: a writer sits inside, reader 1 queues behind it, then
+    reader 2 arrives.  Timeouts only ever decide 'not reproduced'."""
+    run = ThreadRun([['W1'], ['R1'], ['R1']], 1, 1)
+    lock = run.locks[0]
+    w_in, w_go = threading.Event(), threading.Event()
+    r2_in = threading.Event()
+
+    async def writer() -> None:
+        async with lock.write_lock():
+            run.enter(0, 0, 'W')
+            w_in.set()
+            w_go.wait(10.0)
+            run.exit(0, 0, 'W')
+
+    async def reader(tid: int) -> None:
+        with run.wl:
+            run.kind[tid] = 'R'
+            run.state[tid] = 'waiting'
+            run.log.append((0, 'req', tid, 'R'))
+        async with lock.read_lock():
+            run.enter(0, tid, 'R')
+            if tid == 2:
+                r2_in.set()
+            run.exit(0, tid, 'R')
+
+    def main(coro: Any) -> None:
+        loop = asyncio.new_event_loop()
+        try:
+            loop.run_until_complete(coro)
+        finally:
+            loop.close()
+
+    ts = [threading.Thread(target=main, args=(c,), daemon=True)
+          for c in (writer(), reader(1), reader(2))]
+    ts[0].start()
+    if not w_in.wait(10.0):
+        return None, 'script-writer-never-entered', 0
+    ts[1].start()
+    t0 = time.monotonic()
+    while time.monotonic() - t0 < 2.0:     # let reader 1 park on the lock
+        if run.state[1] == 'waiting' and \
+                getattr(lock, '_counter', 1) >= 1:
+            break
+        time.sleep(0.001)
+    time.sleep(0.05)
+    ts[2].start()
+    r2_in.wait(0.5)          # fixed lock: reader 2 is (rightly) parked
+    w_go.set()
+    for t in ts:
+        t.join(10.0)
+    if any(t.is_alive() for t in ts):
+        return run.viol, 'script-join-timeout', run.checked
+    return run.viol, None, run.checked
